@@ -268,3 +268,83 @@ def bound_args(fi, args, kwargs, skip_self=False):
         elif star is not None and star.kw and p in star.kw:
             out[p] = star.kw[p]
     return out
+
+
+# ---------------------------------------------------------------------------- guard facts (conditions under which a statement runs)
+def _conj(expr, pol):
+    """(expr, pol) as a list of atoms whose conjunction it implies / equals where decomposable."""
+    if isinstance(expr, ast.UnaryOp) and isinstance(expr.op, ast.Not):
+        return _conj(expr.operand, not pol)
+    if isinstance(expr, ast.BoolOp):
+        if (isinstance(expr.op, ast.And) and pol) or (isinstance(expr.op, ast.Or) and not pol):
+            out = []
+            for v in expr.values:
+                out += _conj(v, pol)
+            return out
+    if isinstance(expr, ast.Call) and isinstance(expr.func, ast.Name) and expr.func.id == 'bool' and len(expr.args) == 1:
+        return _conj(expr.args[0], pol)
+    return [(expr, pol)]
+
+
+def guard_facts(ctx, it, qual, node, depth=3, _seen=None):
+    """Facts that hold whenever `node` (inside function `qual`) executes: list of (value, polarity, expr, function qualname),
+    plus a flag telling whether every guard was decomposed into such facts. A guard that is a call of a package predicate is
+    replaced by the facts under which that predicate returns a true value."""
+    cfg = ctx.cfg(qual)
+    nid = cfg.node_of(node)
+    facts, complete = [], True
+    if nid is None:
+        return facts, False
+    defs = def_map(ctx.p.functions[qual].node) if qual in ctx.p.functions else {}
+    atoms = []
+    for expr, pol in cfg.guards(nid):
+        atoms += _conj(expr, pol)
+    work = list(atoms)
+    while work:
+        expr, pol = work.pop(0)
+        # a name standing for a boolean expression
+        if isinstance(expr, ast.Name) and expr.id in defs and isinstance(defs[expr.id], (ast.BoolOp, ast.UnaryOp, ast.Compare, ast.Call)):
+            sub = _conj(defs[expr.id], pol)
+            if not (len(sub) == 1 and sub[0][0] is defs[expr.id] and not isinstance(defs[expr.id], (ast.Compare, ast.Call))):
+                work = sub + work
+                continue
+        fv = it.value_of(expr.func) if isinstance(expr, ast.Call) else None
+        if fv is not None and fv.ty == 'func' and fv.fn is not None and fv.fn.qualname in ctx.p.functions:
+            callee = fv.fn
+            key = (callee.qualname, pol)
+            if depth <= 0 or (_seen and key in _seen):
+                complete = False
+                continue
+            sub, ok = predicate_facts(ctx, it, callee, pol, depth - 1, (_seen or set()) | {key})
+            facts += sub
+            complete = complete and ok
+            continue
+        facts.append((it.value_of(expr), pol, expr, qual))
+    return facts, complete
+
+
+def predicate_facts(ctx, it, callee, pol, depth, seen):
+    """Facts implied by `callee(...)` evaluating to a true (pol=True) or false (pol=False) value."""
+    cfg = ctx.cfg(callee.qualname)
+    rets = [(nid, r) for nid, r in cfg.returns() if r.value is not None]
+
+    def konst(r):
+        v = r.value
+        if isinstance(v, ast.Constant) and isinstance(v.value, (bool, type(None))):
+            return bool(v.value)
+        return None
+    want = [(nid, r) for nid, r in rets if konst(r) is None or konst(r) == pol]
+    if len(want) != 1:
+        return [], False
+    nid, r = want[0]
+    facts, ok = guard_facts(ctx, it, callee.qualname, r, depth, seen)
+    if konst(r) is None:
+        for expr, p in _conj(r.value, pol):
+            fv = it.value_of(expr.func) if isinstance(expr, ast.Call) else None
+            if fv is not None and fv.ty == 'func' and fv.fn is not None and fv.fn.qualname in ctx.p.functions and depth > 0:
+                sub, ok2 = predicate_facts(ctx, it, fv.fn, p, depth - 1, seen | {(fv.fn.qualname, p)})
+                facts += sub
+                ok = ok and ok2
+            else:
+                facts.append((it.value_of(expr), p, expr, callee.qualname))
+    return facts, ok
